@@ -159,6 +159,7 @@ def _gen_digest(rnd, tier: str) -> Dict[str, Any]:  # noqa: ANN001
     for r in range(n_ranks):
         p = gen_sim.random_params(rnd, tier, rank=r, first_step=first_step, n_steps=n_steps, autograd=False)
         files[f"rank{r}.json"] = gen_sim.gen_trace(rnd, **p)
+        gen_sim.add_gpu_annotation_pairs(rnd, files[f"rank{r}.json"])          # equal-extent annotation pairs: ties between names
     return {"kind": "digest", "files": files}
 
 
